@@ -45,14 +45,14 @@ class ExprMixin:
         from .path import is_quantified
 
         s = z3.Solver()
-        s.set("timeout", 500)
         for c in path.pc:
             if not is_quantified(c):
                 s.add(c)
         if path.guards:
             s.add(*path.guards)
         s.add(z3.Not(fact))
-        return s.check() == z3.unsat
+        from .solve import cpu_check
+        return cpu_check(s, 500) == z3.unsat
 
     IMPLICIT = {"key": "KeyError", "index": "IndexError", "none": "AttributeError", "attr": "AttributeError",
                 "type": "TypeError", "div0": "ZeroDivisionError", "unpack": "TypeError"}
